@@ -228,10 +228,16 @@ func (m *monC05) checkCanaryNodes(s *Sim, t *Task, v *SyncView, st *edsv1.Extend
 		}
 		seen[n] = true
 	}
-	if !t.Successful() {
+	full := t.Successful()
+	// a reconcile that lost its pod list to an injected fault and selected all the same is
+	// judged on the preference rule alone
+	blind := !full && t.Err == nil && !t.Crashed && t.Panic == nil && !t.Conflict && v.NodesRead && !v.PodsRead
+	if !full && !blind {
 		return
 	}
-	s.Stats.NonVacuous["C15.selection"]++
+	if full {
+		s.Stats.NonVacuous["C15.selection"]++
+	}
 	// Validity. A reconcile that (re)selected is judged against the node list it read; one
 	// that kept the list is judged stale only if the node was already invalid when the
 	// reconcile began and still is when it ends (node churn is concurrent).
@@ -254,6 +260,9 @@ func (m *monC05) checkCanaryNodes(s *Sim, t *Task, v *SyncView, st *edsv1.Extend
 		}
 	}
 	for _, n := range nodes {
+		if !full {
+			break
+		}
 		var bad bool
 		var obj *corev1.Node
 		sig := "stale"
@@ -275,7 +284,7 @@ func (m *monC05) checkCanaryNodes(s *Sim, t *Task, v *SyncView, st *edsv1.Extend
 			s.Violate("C15", "valid", sig, "%s: canary node %s %s", t.Label(), n, why)
 		}
 	}
-	if selectedNow {
+	if selectedNow && full {
 		for n := range prev {
 			if valid(v.Nodes[n]) && !seen[n] {
 				s.Violate("C15", "stable", "", "%s: previously selected node %s is still valid but was dropped", t.Label(), n)
@@ -287,6 +296,16 @@ func (m *monC05) checkCanaryNodes(s *Sim, t *Task, v *SyncView, st *edsv1.Extend
 		candObjs = v.NodeList
 		byName = v.Nodes
 	}
+	if full {
+		m.checkCanaryCount(s, t, v, st, up, nodeObjs, prev)
+	}
+	m.checkCanaryPreference(s, t, v, nodes, prev, seen, candObjs, byName, sel, valid)
+}
+
+func (m *monC05) checkCanaryCount(s *Sim, t *Task, v *SyncView, st *edsv1.ExtendedDaemonSetStatus, up *edsv1.ExtendedDaemonSetReplicaSet, nodeObjs []*corev1.Node, prev map[string]bool) {
+	can := v.EDS.Spec.Strategy.Canary
+	nodes := st.Canary.Nodes
+	spec := &up.Spec.Template.Spec
 	// count
 	nEligible := 0
 	for _, n := range nodeObjs {
@@ -352,8 +371,18 @@ func (m *monC05) checkCanaryNodes(s *Sim, t *Task, v *SyncView, st *edsv1.Extend
 		}
 		s.Violate("C15", "count", sig, "%s: reconcile succeeded with %d canary nodes, replicas %s resolves to %d (eligible nodes %d..%d)", t.Label(), len(nodes), can.Replicas.String(), wantLo, lo, hi)
 	}
-	// preference and spreading for nodes taken from scratch
-	if selectedNow && len(prev) == 0 && len(nodes) > 0 {
+}
+
+// preference (for every node added by this reconcile) and spreading (for a selection from scratch)
+func (m *monC05) checkCanaryPreference(s *Sim, t *Task, v *SyncView, nodes []string, prev, seen map[string]bool, candObjs []*corev1.Node, byName map[string]*corev1.Node, sel labels.Selector, valid func(*corev1.Node) bool) {
+	can := v.EDS.Spec.Strategy.Canary
+	var added []string
+	for _, n := range nodes {
+		if !prev[n] {
+			added = append(added, n)
+		}
+	}
+	if v.NodesRead && len(added) > 0 {
 		restarts := map[string]int{}
 		pods := v.Pods
 		if !v.PodsRead {
@@ -369,7 +398,7 @@ func (m *monC05) checkCanaryNodes(s *Sim, t *Task, v *SyncView, st *edsv1.Extend
 		}
 		if len(can.NodeAntiAffinityKeys) == 0 {
 			worst := 0
-			for _, n := range nodes {
+			for _, n := range added {
 				if restarts[n] > worst {
 					worst = restarts[n]
 				}
@@ -380,7 +409,7 @@ func (m *monC05) checkCanaryNodes(s *Sim, t *Task, v *SyncView, st *edsv1.Extend
 					break
 				}
 			}
-		} else {
+		} else if len(prev) == 0 {
 			val := func(n *corev1.Node) string {
 				x := ""
 				for _, k := range can.NodeAntiAffinityKeys {
